@@ -30,6 +30,7 @@ type Parser struct {
 	args        []Term
 
 	buf tokenRingBuffer
+	err error // what the lexer reported for the empty token in buf
 }
 
 // ParsedVariable is a set of information regarding a variable in a parsed term.
@@ -103,11 +104,15 @@ func (p *Parser) next() (Token, error) {
 	if p.buf.empty() {
 		t, err := p.lexer.Token()
 		if err != nil {
-			return Token{}, err
+			// A failed read takes a slot of its own so that backup() after it doesn't expose the token before it.
+			t, p.err = Token{}, err
 		}
 		p.buf.put(t)
 	}
-	return p.buf.get(), nil
+	if t := p.buf.get(); t != (Token{}) {
+		return t, nil
+	}
+	return Token{}, p.err
 }
 
 func (p *Parser) backup() {
